@@ -14,7 +14,7 @@ Proof.
 Qed.
 
 Section C04.
-Variable hash : N -> N.
+Variable hash : N -> option N.
 Variable fx : codefacts.
 Variable c : cfg.
 Variable clock : nat -> Z.
@@ -84,8 +84,8 @@ Proof.
   destruct (find_name n (s_mboxes s)) as [m|] eqn:F; [|inversion H].
   assert (L : forall x y, limit_refuse hash fx x lit = (y, ResOk a) -> False).
   { intros x y. unfold limit_refuse. destruct (cf_limit_norecover fx); intro Q; inversion Q. }
-  assert (R : forall x y, recover_res hash x lit = (y, ResOk a) -> False).
-  { intros x y. unfold recover_res. destruct (recover hash x lit) as [? [|]]; intro Q; inversion Q. }
+  assert (R : forall x y, recover_res hash fx x lit = (y, ResOk a) -> False).
+  { intros x y. unfold recover_res. destruct (recover hash fx x lit) as [? [|]]; intro Q; inversion Q. }
   destruct (append_check c m); [|exfalso; eapply L; eassumption].
   unfold append_write in H. rewrite (find_id_of_name s W n m F) in H.
   destruct (cf_recheck fx && negb (room c m 1)); [exfalso; eapply L; eassumption|].
@@ -335,12 +335,12 @@ Ltac uvpeel :=
   | |- uv ?s0 (ins_msgs ?i ?ms ?x) => apply uv_ins; uvpeel
   end.
 
-Lemma uv_recover : forall s0 x lit, uv s0 x -> uv s0 (fst (recover hash x lit)).
-Proof. intros s0 x lit U. unfold recover. destruct (hash_known (hash lit) x); cbn [fst]; [assumption | uvpeel]. Qed.
-Lemma uv_recover_res : forall s0 x lit, uv s0 x -> uv s0 (fst (recover_res hash x lit)).
+Lemma uv_recover : forall s0 x lit, uv s0 x -> uv s0 (fst (recover hash fx x lit)).
+Proof. intros s0 x lit U. unfold recover. destruct (lit_known hash fx lit x); cbn [fst]; [assumption | uvpeel]. Qed.
+Lemma uv_recover_res : forall s0 x lit, uv s0 x -> uv s0 (fst (recover_res hash fx x lit)).
 Proof.
   intros s0 x lit U. unfold recover_res. pose proof (uv_recover s0 x lit U) as H.
-  destruct (recover hash x lit). cbn [fst] in *. assumption.
+  destruct (recover hash fx x lit). cbn [fst] in *. assumption.
 Qed.
 Lemma uv_limit_refuse : forall s0 x lit, uv s0 x -> uv s0 (fst (limit_refuse hash fx x lit)).
 Proof. intros s0 x lit U. unfold limit_refuse. destruct (cf_limit_norecover fx); cbn [fst]; [assumption | apply uv_recover; assumption]. Qed.
